@@ -1,12 +1,17 @@
 """C15 - an S3 repository behaves exactly like a filesystem repository.
 
 Stage 1 (proof): Props/C15.v (paging independence, join laws, key <-> path bijection,
-  prefix_offset exactness outside the trailing-slash class).
+  prefix_offset exactness for every prefix value the caller may give: S3Client::new trims
+  trailing slashes, s3.rs:741, /repo commit 1405318).
 Stage 2 (direct search): the same generated histories are driven through the real library on a
   filesystem repository and on the in-process S3 stand-in (bucket root / nested prefix / prefix
-  with a trailing slash = known class; listing page sizes 1, 2, 3, 1000; files on both sides of
+  spelled with trailing slashes, only slashes, a leading slash, an inner double slash: all of
+  them MUST behave like the filesystem - the former known finding prefix-trailing-slash is now
+  the regression test of its repair; listing page sizes 1, 2, 3, 1000; files on both sides of
   the 5 MiB multipart threshold) and compared: result class of every step, key set = file set,
   bytes (inventories as JSON values, sidecars against their inventory), every read-API answer.
+  For the slash-spelled prefixes the filesystem repository is opened under a root path spelled
+  with the same trailing slashes ("the same path on the file system").
 Stage 3 (correspondence): the Gallina model (Model/S3.v) is evaluated on the observed bucket dumps:
   the InventoryIter scan with its exact ListObjectsV2 request sequence (continuation tokens
   included), the listing server, paging, keys of the filesystem tree and back.
@@ -20,7 +25,29 @@ from vplib import common, hist, s3stub
 from vplib.common import coq_str, coq_list, coq_bool, coq_opt
 
 MIB5 = 5 * 1024 * 1024
-KNOWN_ID = "prefix-trailing-slash"
+
+
+def prefix_shape(prefix):
+    """class of a prefix spelling, for the input distribution"""
+    if not prefix:
+        return "none"
+    t = []
+    if not prefix.strip("/"):
+        return "only-slashes"
+    if prefix.endswith("//"):
+        t.append("trailing-slashes")
+    elif prefix.endswith("/"):
+        t.append("trailing-slash")
+    if prefix.startswith("/"):
+        t.append("leading-slash")
+    if "//" in prefix.strip("/"):
+        t.append("inner-double-slash")
+    return "+".join(t) or "plain"
+
+
+def trailing_slashes(prefix):
+    prefix = prefix or ""
+    return prefix[len(prefix.rstrip("/")):]
 
 
 def big(n):
@@ -275,20 +302,37 @@ def plan(ctx):
         variants = []
         if quick:
             variants.append((None, pages[i % 4]))
-            variants.append(("pre/fix" if i % 2 else "p", pages[(i + 1 + i // 4) % 4]))
+            # full histories under plain prefixes and under the same prefixes spelled with trailing slashes
+            variants.append((["p", "pre/fix", "p/", "pre/fix//", "/p", "pre/fix"][i % 6], pages[(i + 1 + i // 4) % 4]))
         else:
-            for j, pfx in enumerate([None, "nested/pre/fix", "p"]):
+            slashed = ["q/", "nested/pre//", "/", "/lead/ing", "in//ner/", "//"][i % 6]
+            for j, pfx in enumerate([None, "nested/pre/fix", "p", slashed]):
                 for ps in pages:
                     if (i + j + ps) % 3 != 0 or ps == pages[(i + j) % 4]:
                         variants.append((pfx, ps))
         cases.append({"idx": i, "cfg": cfg, "ops": ops, "variants": variants})
-    # the known class: prefix given with a trailing slash
-    for j, pfx in enumerate(["pre/", "a/b/"] if quick else ["pre/", "a/b/", "x//", "/"]):
-        cfg = dict(cfgs[j % len(cfgs)], ext_staging=True, fresh_handle=False)
-        oid = hist.obj_id(cfg, 0)
-        ops = [{"op": "new", "id": oid}, {"op": "cp_ext", "id": oid, "files": [["a.txt", 2]], "dst": "a.txt", "recursive": False},
-               {"op": "commit", "id": oid}]
-        cases.append({"idx": 1000 + j, "cfg": cfg, "ops": ops, "variants": [(pfx, [2, 1000][j % 2])]})
+    # prefix spellings with slashes at the ends (the trailing ones are trimmed by S3Client::new, s3.rs:741;
+    # until /repo commit 1405318 they were the known finding prefix-trailing-slash): a scripted preamble that
+    # commits two versions of one object, commits and purges a second one, then a short generated history;
+    # the filesystem side is opened under a root spelled with the same trailing slashes
+    spellings = ["pre/", "a/b//", "/", "/pre", "//x/y/", "p//q/"] if quick else \
+                ["pre/", "a/b//", "/", "/pre", "//x/y/", "p//q/", "x///", "//", "/pre/", "ü/"]
+    for j, pfx in enumerate(spellings):
+        cfg = dict(cfgs[(j + 1) % len(cfgs)], ext_staging=True, fresh_handle=(j % 3 == 2))
+        a, c = hist.obj_id(cfg, 5), hist.obj_id(cfg, 6)
+        ops = [{"op": "new", "id": a},
+               {"op": "cp_ext", "id": a, "files": [["a.txt", 2]], "dst": "a.txt", "recursive": False},
+               {"op": "cp_ext", "id": a, "files": [["c.txt", 3]], "dst": "dir/sub/c.txt", "recursive": False},
+               {"op": "commit", "id": a},
+               {"op": "new", "id": c},
+               {"op": "cp_ext", "id": c, "files": [["b.txt", 1]], "dst": "b.txt", "recursive": False},
+               {"op": "commit", "id": c},
+               {"op": "cp_ext", "id": a, "files": [["d.txt", 4]], "dst": "dir/d.txt", "recursive": False},
+               {"op": "commit", "id": a},
+               {"op": "purge", "id": c}]
+        ops += hist.gen_history(rng, cfg, 8 if quick else 20, n_objects=2)
+        cases.append({"idx": 1000 + j, "cfg": cfg, "ops": ops, "variants": [(pfx, [2, 1000, 1, 3][j % 4])],
+                      "fs_suffix": trailing_slashes(pfx)})
     return cases
 
 
@@ -325,7 +369,8 @@ def list_log(entries):
 
 
 def coq_terms(run):
-    """one Coq term per S3 run: list of booleans"""
+    """one Coq term per S3 run: list of booleans.  The prefix is handed over as the caller gave it:
+    the checkers apply S3.client_prefix (s3.rs:741) themselves"""
     keys = sorted(run["s3_raw"], key=lambda k: k.encode("utf-8"))
     cp = run["prefix"] or ""
     ks = coq_list([coq_str(k) for k in keys])
@@ -344,29 +389,51 @@ def coq_terms(run):
     for path, delim in run["paging_paths"]:
         parts.append("check_paging %d ks %s %s %s" % (ps, coq_str(cp), coq_str(path), coq_bool(delim)))
         names.append("paging")
-    if not run["known_class"]:
-        tree = coq_tree(run["fs_tokens"], run["empty_dirs"])
-        obs = coq_list(["(%s, %s)" % (coq_str(k), coq_str(run["s3_tokens_full"][k])) for k in keys])
-        parts.append("check_keys_of_tree %s tr %s" % (coq_str(cp), obs))
-        names.append("keys_of_tree")
-        parts.append("check_paths_of_keys %s tr %s" % (coq_str(cp), obs))
-        names.append("paths_of_keys")
-        parts.append("check_storage_list_all ks %s tr" % coq_str(cp))
-        names.append("storage_list")
-        term = "let ks := %s in let tr := %s in [%s]" % (ks, tree, "; ".join(parts))
-    else:
-        term = "let ks := %s in [%s]" % (ks, "; ".join(parts))
+    tree = coq_tree(run["fs_tokens"], run["empty_dirs"])
+    obs = coq_list(["(%s, %s)" % (coq_str(k), coq_str(run["s3_tokens_full"][k])) for k in keys])
+    parts.append("check_keys_of_tree %s tr %s" % (coq_str(cp), obs))
+    names.append("keys_of_tree")
+    parts.append("check_paths_of_keys %s tr %s" % (coq_str(cp), obs))
+    names.append("paths_of_keys")
+    parts.append("check_storage_list_all ks %s tr" % coq_str(cp))
+    names.append("storage_list")
+    term = "let ks := %s in let tr := %s in [%s]" % (ks, tree, "; ".join(parts))
     return term, names
 
 
 # --------------------------------------------------------------------------- execution
+
+class SlashRootRunner(hist.Runner):
+    """a filesystem scratch repository that the library opens under a root path spelled with
+    trailing slashes (<root>/, <root>//): the file-system counterpart of an S3 prefix `pre/`"""
+
+    def __init__(self, ctx, cfg, name, suffix):
+        super().__init__(ctx, cfg, name, init=False)
+        self.given_root = self.root + suffix
+        r = self.s.call("init", h=self.h, root=self.given_root, staging=self.stg, spec=cfg["repo_spec"],
+                        layout=hist.LAYOUTS[cfg["layout"]])
+        if "ok" not in r:
+            raise common.BuildError("cannot init scratch repository at %r: %r" % (self.given_root, r))
+
+    def reopen(self):
+        self.s.call("drop", h=self.h)
+        r = self.s.call("open", h=self.h, root=self.given_root, staging=self.stg)
+        if "ok" not in r:
+            raise common.BuildError("cannot reopen scratch repository at %r: %r" % (self.given_root, r))
+
 
 def run_case(ctx, case, stubs):
     """drive one history on the filesystem and on every S3 variant; returns list of run records"""
     cfg, ops = case["cfg"], case["ops"]
     ids = sorted({o["id"] for o in ops})
     name = "h%d" % case["idx"]
-    fs = hist.Runner(ctx, cfg, name + "-fs")
+    suffix = case.get("fs_suffix") or ""
+    if suffix:
+        fs = SlashRootRunner(ctx, cfg, name + "-fs", suffix)
+        fs_base = fs.given_root[:-1]       # PathBuf::join appends to "<root>//" without another separator
+    else:
+        fs = hist.Runner(ctx, cfg, name + "-fs")
+        fs_base = fs.root
     runs = []
     try:
         fs_classes, fs_snaps, occ, resolved = [], [], {}, []
@@ -389,14 +456,14 @@ def run_case(ctx, case, stubs):
             else:
                 fs_snaps.append(None)
         ops = resolved
-        fs_api = read_api(fs, ids, fs.root)
+        fs_api = read_api(fs, ids, fs_base)
         fsf, empty_dirs = fs_files(fs.root)
         for vi, (prefix, page_size) in enumerate(case["variants"]):
             stub = stubs.get()
             stub.page_size = page_size
             bucket = "b%dv%d" % (case["idx"], vi)
             rec = {"case": case["idx"], "cfg": cfg, "ops": ops, "prefix": prefix, "page_size": page_size,
-                   "known_class": bool(prefix) and prefix.endswith("/"), "msg": None, "empty_dirs": empty_dirs,
+                   "shape": prefix_shape(prefix), "fs_suffix": suffix, "msg": None, "empty_dirs": empty_dirs,
                    "steps": len(ops), "ok_steps": sum(1 for c in fs_classes if c == "ok"), "multipart": 0}
             s3 = None
             try:
@@ -502,13 +569,13 @@ def run(ctx):
         else:
             terms.append("[true]")
             names.append(["none"])
-    res = common.coq_eval("c15", ["Base.Bytes", "Model.S3", "Model.KnownS3", "Corr.CheckS3"], terms, batch=4)
-    cls = common.coq_eval("c15k", ["Base.Bytes", "Model.S3", "Model.KnownS3", "Corr.CheckS3"],
-                          ["known_c15 %s" % coq_str(r["prefix"] or "") for r in runs])
+    res = common.coq_eval("c15", ["Base.Bytes", "Model.S3", "Corr.CheckS3"], terms, batch=4)
+    # the driver cuts bucket keys relative to s3stub.norm_prefix: it must be the prefix the model's client stores
+    cls = common.coq_eval("c15k", ["Base.Bytes", "Model.S3", "Corr.CheckS3"],
+                          ["stored_prefix_is %s %s" % (coq_str(r["prefix"] or ""), coq_str(s3stub.norm_prefix(r["prefix"]))) for r in runs])
 
-    known_ids = {k["id"] for k in ctx.known}
     dist = {"runs": 0, "steps": 0, "ok_steps": 0, "multipart_uploads": 0, "page_sizes": {}, "prefixes": {}, "layouts": {},
-            "keys_max": 0, "list_requests": 0, "truncated_pages": 0, "fs_empty_dirs": 0, "known_class_runs": 0, "model_checks": 0,
+            "keys_max": 0, "list_requests": 0, "truncated_pages": 0, "fs_empty_dirs": 0, "prefix_shapes": {}, "fs_root_spelled_with_trailing_slashes": 0, "model_checks": 0,
             "resets_inserted_for_staged_duplicates": 0}
     for r, val, kc, nm in zip(runs, res, cls, names):
         dist["runs"] += 1
@@ -518,28 +585,23 @@ def run(ctx):
         dist["resets_inserted_for_staged_duplicates"] += sum(1 for o in r["ops"] if o.get("inserted"))
         dist["page_sizes"][str(r["page_size"])] = dist["page_sizes"].get(str(r["page_size"]), 0) + 1
         dist["prefixes"][str(r["prefix"])] = dist["prefixes"].get(str(r["prefix"]), 0) + 1
+        dist["prefix_shapes"][r["shape"]] = dist["prefix_shapes"].get(r["shape"], 0) + 1
+        dist["fs_root_spelled_with_trailing_slashes"] += 1 if r["fs_suffix"] else 0
         dist["layouts"][r["cfg"]["layout"]] = dist["layouts"].get(r["cfg"]["layout"], 0) + 1
         dist["keys_max"] = max(dist["keys_max"], r.get("n_keys", 0))
         dist["fs_empty_dirs"] += len(r["empty_dirs"])
         if "scan" in r:
             dist["list_requests"] += len(r["scan"]["lists"])
             dist["truncated_pages"] += sum(1 for x in r["scan"]["lists"] if x[3] and x[3]["truncated"])
-        in_class = kc == "true"
-        if in_class != r["known_class"]:
-            common.corr_break(ctx, "KnownS3.c15_prefix_trailing_slash disagrees with the driver's classification", {"prefix": r["prefix"]})
+        if kc != "true":
+            common.corr_break(ctx, "S3.client_prefix (s3.rs:741) disagrees with the driver's s3stub.norm_prefix", {"prefix": r["prefix"]})
         vals = [v.strip() for v in val.strip("[]").split(";")] if val.strip("[]").strip() else []
         dist["model_checks"] += len(vals)
-        inp = {"cfg": r["cfg"], "ops": r["ops"], "prefix": r["prefix"], "page_size": r["page_size"]}
+        inp = {"cfg": r["cfg"], "ops": r["ops"], "prefix": r["prefix"], "page_size": r["page_size"], "fs_suffix": r["fs_suffix"]}
         ctx.count((r["case"], r["prefix"], r["page_size"]), nontrivial=r["ok_steps"] > 2,
-                  sample={"prefix": r["prefix"], "page_size": r["page_size"], "layout": r["cfg"]["layout"], "steps": r["steps"],
+                  sample={"prefix": r["prefix"], "prefix_shape": r["shape"], "fs_root_suffix": r["fs_suffix"], "page_size": r["page_size"], "layout": r["cfg"]["layout"], "steps": r["steps"],
                           "keys": r.get("n_keys"), "difference": r["msg"], "model": dict(zip(nm, vals)) if len(nm) == len(vals) else val})
-        if r["msg"] and in_class and KNOWN_ID in known_ids:
-            ctx.known_hit(KNOWN_ID)
-            dist["known_class_runs"] += 1
-            # the model must show the same defect: the scan finds what the real code found
-            if vals and vals[0] != "true":
-                common.corr_break(ctx, "Corr.CheckS3 check_scan inside the known class (model S3.v vs s3.rs)", {"input": inp, "scan": r.get("scan")})
-        elif r["msg"]:
+        if r["msg"]:
             ctx.violation("impl-violation", {"input": inp, "observed": r["msg"],
                                              "expected": "the S3 repository equals the filesystem repository driven by the same history"})
         else:
@@ -553,7 +615,8 @@ def run(ctx):
     ctx.assumptions.append("keys are compared for well-formed names only (no control characters: ListObjectsV2 answers are XML)")
     return common.finish_with_proof(ctx, proof,
         rule="histories from vplib.hist.gen_history (create, stage, commit, upgrade, purge; all layouts incl. none) run on a filesystem "
-             "repository and on the S3 stand-in per (prefix, page size) variant; distinct = distinct (history, prefix, page size); "
+             "repository and on the S3 stand-in per (prefix, page size) variant (prefixes: none, plain, nested, and spelled with trailing / only / "
+             "leading / inner double slashes, all must-pass); distinct = distinct (history, prefix, page size); "
              "non-trivial = more than two successful steps; every run compared step by step, store against store, read API against read API")
 
 
@@ -563,15 +626,15 @@ def replay(ctx, body):
     if not inp or "ops" not in inp:
         return run(ctx)
     common.build_harness()
-    case = {"idx": 0, "cfg": inp["cfg"], "ops": inp["ops"], "variants": [(inp["prefix"], inp["page_size"])]}
+    case = {"idx": 0, "cfg": inp["cfg"], "ops": inp["ops"], "variants": [(inp["prefix"], inp["page_size"])],
+            "fs_suffix": inp.get("fs_suffix") or ""}
     pool = StubPool(1)
     try:
         runs = run_case(ctx, case, pool)
     finally:
         pool.stop()
-    known_ids = {k["id"] for k in ctx.known}
     for r in runs:
-        if r["msg"] and not (r["known_class"] and KNOWN_ID in known_ids):
+        if r["msg"]:
             ctx.violation("impl-violation", {"input": inp, "observed": r["msg"],
                                              "expected": "the S3 repository equals the filesystem repository driven by the same history"})
     return ctx.finish(rule="replay of one recorded history")
